@@ -210,10 +210,11 @@ def denoteSimple : List Part → PStmt → PStmt
 def denoteCombos : List Part → PStmt → PStmt
   | [], acc => acc
   | .ncomb h t :: ps, acc =>
-    -- the combination's root carries the symbol (as component type and as left shared text);
+    -- the combination's root carries the symbol as component type and the written header
+    -- (symbol, suffix, annotation) as left shared text;
     -- the statements below it carry only their own suffix / annotation
     let n := match denoteN t with
-      | .comb op _ sr m p l r => PNode.comb op [h.sym.name] sr { m with ct := h.sym.name } p l r
+      | .comb op _ sr m p l r => PNode.comb op [renderHdr h] sr { m with ct := h.sym.name } p l r
       | x => x
     denoteCombos ps (match h.sym.complex with | some f => addField opAND f n acc | none => acc)
   | _ :: ps, acc => denoteCombos ps acc
